@@ -64,7 +64,7 @@ def cases(tier, seed):
     first_events = events(FILES[:2] if tier == 'quick' else FILES, QUICK_ALPHABET)
     for i, ev in enumerate(first_events):
         cs.append({'prefix': ev, 'depth': 4 if tier == 'quick' else 5})
-    n = 16 if tier == 'quick' else 200
+    n = 48 if tier == 'quick' else 400
     cs += [{'random': i} for i in range(n)]
     cs += [{'documents': i} for i in range(4 if tier == 'quick' else 16)]
     return cs
@@ -330,7 +330,7 @@ def run_case(ctx, case):
             ctx.sample({'prefix': case['prefix'], 'depth': case['depth']})
         elif 'random' in case:
             rng = ctx.rng()
-            for rep in range(6):
+            for rep in range(8):
                 sub = os.path.join(d, 'r%d' % rep)
                 os.makedirs(sub)
                 b = Bench(ctx, sub)
@@ -340,7 +340,7 @@ def run_case(ctx, case):
                         if rng.random() < 0.25:
                             b.remove(f)
                         else:
-                            b.write(f, rng.choice(sorted(CONTENTS)))
+                            b.write(f, rng.choice(sorted(CONTENTS) + ['X1', 'X1', 'XY', 'XY', 'Y1']))
                     if not b.scan():
                         break
                 if rep == 0:
